@@ -302,3 +302,5 @@ def run(ctx):
     from .. import errdisc
     errdisc.check(ctx, 'C15.RD', 'C15', 5)
     boundaries.check_guards(ctx, 'C15.RG', 'C15')
+    from .. import boundaries as _b
+    _b.check_predicates(ctx, 'C15.RP', 'C15')
